@@ -60,6 +60,7 @@ type env struct {
 	// requests that may still wait in the channel or the queue, by ordinal: "plot" or "mine".  The real
 	// queue is a heap: among requests for one space the order is unspecified, so the generator keeps them alike.
 	outstanding map[int]string
+	mineAsked   map[int]bool // a mine request was accepted for the space and no stop / remove / delete since
 	// C09 "a stopped space is not plotted or mined until asked again"
 	stopped       map[int]bool
 	pendingAtStop map[int]bool                  // a request for the space waited in the channel or the popped slot when it was stopped
@@ -142,6 +143,7 @@ func (e *env) newKeeper(n int) {
 	curGates = e.gates
 	e.parked, e.pc, e.pcOrd, e.quitting, e.stuck, e.dead = nil, "exited", -1, false, false, false
 	e.outstanding = map[int]string{}
+	e.mineAsked = map[int]bool{}
 	e.stopped, e.pendingAtStop = map[int]bool{}, map[int]bool{}
 	e.chanOrds, e.prevField, e.prevUsing, e.poppedOrd = nil, map[int]engine.WorkSpaceState{}, map[int]bool{}, -1
 	for o := range e.sidOf {
@@ -260,6 +262,11 @@ func (e *env) dump() string {
 			}
 			if sp.Field == engine.Plotting {
 				nplotting++
+			}
+			// C09: a space starts mining only on a mine request that no stop has voided since ("a stopped space is not ... mined
+			// until asked again"; a plot request asks for plotting, not for mining)
+			if sp.Field == engine.Mining && e.prevField[ord] != engine.Mining && !e.mineAsked[ord] {
+				e.h.Fail("C09:mining-without-a-valid-mine-request", fmt.Sprintf("space %d moved from %s to mining although its last mine request was voided by a stop / remove (or it was never asked to mine)", ord, stName[e.prevField[ord]]))
 			}
 			// C09: a stopped space is not plotted or mined until asked again (a transition into plotting/mining)
 			if e.stopped[ord] && sp.Field != e.prevField[ord] && (sp.Field == engine.Plotting || sp.Field == engine.Mining) {
@@ -465,6 +472,14 @@ func (e *env) act(kind string, ord int) {
 }
 
 func (e *env) noteRequest(kind string, ord int, err error) {
+	if err == nil {
+		switch kind {
+		case "mine":
+			e.mineAsked[ord] = true
+		case "stop", "remove", "delete":
+			e.mineAsked[ord] = false
+		}
+	}
 	switch kind {
 	case "stop":
 		if err == nil {
@@ -869,6 +884,11 @@ func main() {
 			after := [][]string{{"stop 0"}, {"mine 0"}, {"plot 0"}, {"mine 0", "stop 0"}}[h.Rng.Intn(4)]
 			script := append([]string{"keeperstart", "plot 0", "recv", "pop", "step1", fmt.Sprintf("bulk %s 15", batch)}, after...)
 			e.replay(script)
+		} else if s%6 == 4 && n >= 2 {
+			// requests for one space pile up in the plotter's channel while another space plots: a mine request voided by
+			// a stop, then a plain plot request - the space is plotted and ends ready, not mining
+			e.replay([]string{"keeperstart", "plot 0", "recv", "pop", "step1", "mine 1", "stop 1", "plot 1", "plotends 0 1", "step3",
+				"recv", "pop", "step1", "plotends 1 1", "step3", "settle"})
 		} else if h.Rng.Intn(4) != 0 {
 			e.start()
 		}
@@ -888,6 +908,9 @@ func main() {
 	}
 	if *focus == "C11" && !e.stuck {
 		requestDuringDelete(e)
+	}
+	if *focus == "C09" && !e.stuck {
+		stopAtPlotEntry(e)
 	}
 	h.Finish("schedules of plotter micro-steps (gated by hook H3), single and bulk actions on 1-3 workspaces, keeper start/quit and scripted plot outcomes against the real keeper with a scripted plot backend; every call under a watchdog; distinct = distinct (op, output) pairs")
 }
@@ -1178,6 +1201,78 @@ func storm(e *env) {
 // requestDuringDelete (C11): while a delete request is erasing a space's files, a mine or plot request for the same
 // space must not be accepted (delete is refused for a mining space; a space must not become mining once its files are
 // on their way out).  The scripted backend parks inside Delete().
+// stopAtPlotEntry (C09): a stop that lands while the backend is still starting the plot.  The space is already reported as
+// plotting; whatever the interleaving, a stop that returned without error sticks: the plot does not run on to ready.
+func stopAtPlotEntry(e *env) {
+	h := e.h
+	for rep := 0; rep < 2; rep++ {
+		e.newKeeper(1)
+		curGates = nil
+		e.w.auto = false
+		e.w.mu.Lock()
+		e.w.parkPlot, e.w.inPlot = make(chan struct{}), make(chan struct{}, 1)
+		e.w.mu.Unlock()
+		go func(w *fakeWorld) { // nobody reads the plot events in this scenario
+			for range w.events {
+			}
+		}(e.w)
+		if err := e.sk.Start(); err != nil {
+			h.FailWith("C09:keeper-start", err.Error(), nil)
+			return
+		}
+		sid := e.sidOf[0]
+		kind := []engine.ActionType{engine.Plot, engine.Mine}[rep]
+		if err := e.sk.ActOnWorkSpace(sid, kind); err != nil {
+			h.FailWith("C09:plot-entry-scenario", fmt.Sprintf("%v request refused: %v", kind, err), nil)
+			return
+		}
+		select {
+		case <-e.w.inPlot:
+		case <-time.After(5 * time.Second):
+			h.FailWith("C09:plot-entry-scenario", "the plotter did not reach the backend's Plot() within 5 s", nil)
+			return
+		}
+		stopDone := make(chan error, 1)
+		go func() { stopDone <- e.sk.ActOnWorkSpace(sid, engine.Stop) }()
+		time.Sleep(60 * time.Millisecond) // the stop is under way (or waits for the state lock) while Plot() is still starting
+		e.w.mu.Lock()
+		close(e.w.parkPlot)
+		e.w.parkPlot = nil
+		e.w.mu.Unlock()
+		var stopErr error
+		select {
+		case stopErr = <-stopDone:
+		case <-time.After(5 * time.Second):
+			h.FailWith("C13:request-never-returns", "a stop issued while the backend was starting a plot did not return within 5 s", nil)
+			return
+		}
+		// a plot that is (still) running now completes if nobody stopped it
+		time.Sleep(30 * time.Millisecond)
+		e.w.mu.Lock()
+		if r := e.w.running; r != nil && r.cmd != nil {
+			select {
+			case r.cmd <- true:
+			default:
+			}
+		}
+		e.w.mu.Unlock()
+		time.Sleep(150 * time.Millisecond)
+		h.Res.OracleEvals++
+		st := e.sk.VerifState()
+		for _, sp := range st.Spaces {
+			if sp.SID == sid && stopErr == nil && sp.Field != engine.Registered {
+				h.FailWith("C09:stop-during-plot-start-did-not-stick", fmt.Sprintf("a %v request was being started by the backend when a stop for the space returned without error; afterwards the space is %v instead of registered (the plot ran on)", kind, sp.Field),
+					[]string{kind.String() + " 0; (backend parked at the entry of Plot()); stop 0; release; plot completes"})
+			}
+		}
+		if !guard(10*time.Second, func() { e.sk.Stop() }) {
+			h.FailWith("C13:stop-never-returns", "Stop() after the plot-entry scenario did not return", nil)
+			return
+		}
+	}
+	curGates = nil
+}
+
 func requestDuringDelete(e *env) {
 	h := e.h
 	for _, kind := range []engine.ActionType{engine.Mine, engine.Plot} {
